@@ -293,7 +293,8 @@ def check_message(ctx, fmt, spec, raw, m, same_offset, atts=True, quoted=False):
             empty = [f for f, _, d in spec["attachments"] if len(d) == 0]
             key = (f"{fmt}:attachments:count:{'zero-byte' if empty else 'nonempty'}" if len(got) != len(want)
                    else f"{fmt}:attachments:{tag}:{spec['att_name_style']}")
-            ctx.finding(key, f"{fmt}: {len(got)} attachment(s) instead of {len(want)}"
+            ctx.finding(key, (f"{fmt}: {len(got)} attachment(s) instead of {len(want)}" if len(got) != len(want) else
+                              f"{fmt}: attachment name/type/bytes differ at position {next(i for i, (g_, w_) in enumerate(zip(got, want)) if g_ != w_) + 1}")
                         + (f" (zero-byte attachment(s) {empty})" if empty and len(got) != len(want) else "") + f": {got!r} instead of {want!r}",
                         rep("attachments", got, want))
         # each supported attachment vs the same bytes alone
